@@ -219,6 +219,8 @@ def backward_slice(
                     _add_expr(sl, n.iter, needed)
             elif isinstance(n, ast.While) and control:
                 _add_expr(sl, n.test, needed)
+            elif isinstance(n, ast.For) and control:
+                _add_expr(sl, n.iter, needed)
     sl.entry_names = set(needed)
     return sl
 
